@@ -255,21 +255,24 @@ func ruleSetTotal(w *World, r *Report, pfx string, trig, pred *ssa.Function, opt
 				}
 				return
 			}
-			if len(stT) != 1 {
-				bad = "SetTotal does not store total exactly once on an effective path"
+			if len(stT) == 0 {
+				bad = "SetTotal does not store total on an effective path"
 				wit = p.describe()
 				return
 			}
+			// what counts is the value total has when the closure is done: the last store on the path
+			// (`s.total = arg; if arg < 0 { s.total = s.current }` is the same rule as the if/else form)
+			stT = stT[len(stT)-1:]
 			isArg := func(v Val) bool { return w.isParamOf(v.V, meth, 1) }
 			if isLoad(Val{stripConv(stT[0].Val.V), stT[0].Val.F, stT[0].Val.E}, tBState, "current") {
 				sawNeg = true
-				if !p.hasCmp(stT[0].Idx, token.LSS, isArg, isConstInt(0)) {
+				if !p.hasCmp(-1, token.LSS, isArg, isConstInt(0)) {
 					bad = "total <- current without the atom total < 0"
 					wit = p.describe()
 				}
 			} else if isArg(stT[0].Val) {
 				sawPos = true
-				if !p.hasCmp(stT[0].Idx, token.GEQ, isArg, isConstInt(0)) {
+				if !p.hasCmp(-1, token.GEQ, isArg, isConstInt(0)) {
 					bad = "total <- arg without the atom total >= 0"
 					wit = p.describe()
 				}
